@@ -258,6 +258,15 @@ class UnionConverter(Converter[t.Any]):
                 pass
             else:
                 return conv.into_data(val)
+        # no variant takes ``val`` as it is (e.g. dataclass instances, tagged unions).
+        # look for one which serialises it into something it reads back as the same value
+        for conv in self.converters:
+            try:
+                data = conv.into_data(val)
+                if conv.try_convert(data) == val:
+                    return data
+            except Exception:
+                pass
         # default to regular conversion
         return into_data(val)
 
